@@ -80,7 +80,7 @@ public:
 
     std::string str() const {
         switch (tag) {
-            case FIN: return v.get_str();
+            case FIN: return v.get_str(16);   // hexadecimal: linear-time, same format as the Lean driver
             case PINF: return "inf";
             case NINF: return "-inf";
             default: return "poison";
